@@ -41,6 +41,7 @@ type w13Conn struct {
 
 type w13Case struct {
 	Shape string    `json:"shape,omitempty"` // generator's case shape (informational)
+	Tries int       `json:"tries,omitempty"` // replays only: timing-dependent case, run up to this many times
 	Conns []w13Conn `json:"conns"`
 }
 
